@@ -36,7 +36,13 @@ OWN = {
 }
 DEFAULT_KEY = {"difftool": "diff.guitool", "mergetool": "merge.tool"}
 ATTR_LINE = {"diffdriver": "*.ipynb\tdiff=jupyternotebook", "mergedriver": "*.ipynb\tmerge=jupyternotebook"}
-FOREIGN_ATTRS = ["*.csv text eol=lf", "*.png binary\n", "*.md diff=markdown\n*.txt text", "# comment only\n", "*.py diff=python\n\n"]
+FOREIGN_ATTRS = ["*.csv text eol=lf", "*.png binary\n", "*.md diff=markdown\n*.txt text", "# comment only\n", "*.py diff=python\n\n",
+                 # a byte that is not UTF-8 (a Latin-1 comment; written as the byte 0xE9 in place of <E9>): git reads such files
+                 "# caf<E9> rules\n*.csv text\n",
+                 # rules that mention nbdime's drivers without routing *.ipynb to them: commented out by the user after an earlier enable /
+                 # restricted to one directory
+                 "# *.ipynb\tdiff=jupyternotebook\n# *.ipynb\tmerge=jupyternotebook\n",
+                 "docs/*.ipynb diff=jupyternotebook merge=jupyternotebook\n"]
 
 
 def budget(tier):
@@ -44,7 +50,20 @@ def budget(tier):
 
 
 def valid(case):
-    return bool(case["commands"])
+    # (keeps the shrinker inside the command grammar)
+    for c in case["commands"]:
+        if not isinstance(c, list) or not c:
+            return False
+        if c[0] in ("config-git-enable", "config-git-disable"):
+            if len(c) != 2 or c[1] not in ("local", "global"):
+                return False
+        elif c[0] in ("enable", "disable"):
+            if len(c) != 4 or c[1] not in COMPONENTS or c[2] not in ("local", "global") or not isinstance(c[3], bool):
+                return False
+        else:
+            return False
+    init = case["init"]
+    return bool(case["commands"]) and all(isinstance(init.get(k), dict) for k in ("local", "global"))
 
 
 @st.composite
@@ -105,8 +124,8 @@ class Sandbox:
         for scope in ("local", "global"):
             txt = init["attrs_" + scope]
             if txt is not None:
-                with io.open(self.attr_files[scope], "w", encoding="utf8", newline="") as f:
-                    f.write(txt)
+                with io.open(self.attr_files[scope], "wb") as f:
+                    f.write(txt.encode("utf8").replace(b"<E9>", b"\xe9"))
 
     def git(self, *args, check=True):
         p = subprocess.run(["git"] + list(args), cwd=self.repo, stdout=subprocess.PIPE, stderr=subprocess.PIPE)
